@@ -226,12 +226,17 @@ def long_programs(seed):
     """Synthetic long programs (continuation lines, dozens of variables) expressed as Script.tla records."""
     rng = random.Random(seed)
     recs = []
-    for nvars in (12, 25, 40):
+    for nvars in (12, 25, 40, 18, 22, 27, 31, 36, 14, 33):
         rhs = []
         for i in range(2, nvars + 1):
             rhs.append({'t': 'var', 's': rng.choice(['v', 'v', 'p', 'e']), 'n': i, 'k': rng.choice([0, 0, -1, 1])})
-            rhs.append({'t': 'num', 's': rng.choice(['2', '0.5', '3', '0.25']), 'n': 0, 'k': 0})
-            rhs.append({'t': 'bin', 's': '*', 'n': 0, 'k': 0})
+            rhs.append({'t': 'num', 's': rng.choice(['2', '0.5', '3', '0.25', '0.025', '10']), 'n': 0, 'k': 0})
+            rhs.append({'t': 'bin', 's': rng.choice(['*', '*', '/']), 'n': 0, 'k': 0})
+            if rng.random() < 0.6:   # ( V * 0.025 ): a parenthesised group that ends in a literal
+                rhs.append({'t': 'paren', 's': '', 'n': 0, 'k': 0})
+            if rng.random() < 0.2:   # ( ... ) / 3: an integer ratio closing a group
+                rhs.append({'t': 'num', 's': rng.choice(['3', '7']), 'n': 0, 'k': 0})
+                rhs.append({'t': 'bin', 's': '/', 'n': 0, 'k': 0})
             if i > 2:
                 rhs.append({'t': 'bin', 's': rng.choice(['+', '-']), 'n': 0, 'k': 0})
         stmts = [{'lhs': {'t': 'var', 's': 'v', 'n': 1, 'k': 0}, 'rhs': rhs}]
